@@ -1,5 +1,7 @@
 import Plotink.Drv.Util
 import Plotink.Model.C07
+import Plotink.Gen.ebb_serial_query
+import Plotink.Gen.ebb_serial_command
 /-! Driver handler for C07.
 
 `c07 params`                      → `<retry> <noOK names, '|'-separated, each as code points> <0|1>`  (the values of `C07.std`)
@@ -13,6 +15,13 @@ import Plotink.Model.C07
    `<result> <n writes> <written texts '|'-separated or ~> <n reads> <queue length afterwards> <model path> <spec>`
    spec: `S<what arrived>` per `C07.arrived` for a query that reaches the device, else `-`
    result: `S<str>` | `B<bytes>` | `None` | `!TypeError` | `!UnicodeDecodeError` | `!UnicodeEncodeError`
+
+`c07 gseq <fuel> <wexc> <W> <pre…> ; <call> ; <call> …`   — the same histories on the SOURCE-REGENERATED functions
+   (`Gen.ebb_serial_query` / `Gen.ebb_serial_command`, translator/pyio2lean.py)
+   `<wexc>`  class name of the exception a failing write raises; read tokens: `x<ClassName>` raises that class
+   `<call>`  `q|c <0|1 port present> <cmd as code points | None> <True|False|None verbose> <read outcomes…>`
+ answer per call: `<result> <n writes> <written texts> <n reads> <queue length afterwards>`
+   result: as above, or `True`/`False`/`I<int>`/`OTHER`, `!<Python exception class name>`, `FUELOUT`
 -/
 namespace Plotink
 namespace Drv
@@ -34,7 +43,7 @@ def c07ParseReads : List String → Option (List Rd)
     match c07ParseReads ts with
     | none => none
     | some rest =>
-      if t = "x" then some (.raiseIO :: rest)
+      if t.startsWith "x" then some (.raise .serialException :: rest)
       else if t.startsWith "e" then
         match (t.drop 1).toString.toNat? with
         | some k => some (List.replicate k .empty ++ rest)
@@ -46,7 +55,7 @@ def c07ParseReads : List String → Option (List Rd)
       else none
 
 def c07ParseWrites (t : String) : List Wr :=
-  if t = "-" then [] else t.toList.map (fun c => if c = 'x' then Wr.raiseIO else Wr.ok)
+  if t = "-" then [] else t.toList.map (fun c => if c = 'x' then Plotink.PyIO.Wr.raise .serialException else Plotink.PyIO.Wr.ok)
 
 def c07ShowRes : Except PyExc Val → String
   | .ok (.str s) => "S" ++ c07Enc s
@@ -108,6 +117,83 @@ def c07RunCalls (P : Params) : List (List String) → Port → List String
       | _, _ => ["BAD"]
     | _ => ["BAD"]
 
+
+/-! ## the regenerated functions on the same histories -/
+
+def c07ExcNames : List (String × PyIO.ExcClass) :=
+  [("BaseException", .baseException), ("Exception", .exception), ("OSError", .osError), ("IOError", .osError),
+   ("SerialException", .serialException), ("SerialTimeoutException", .serialTimeoutException),
+   ("PortNotOpenError", .portNotOpenError), ("RuntimeError", .runtimeError), ("TypeError", .typeError),
+   ("AttributeError", .attributeError), ("ValueError", .valueError), ("UnicodeError", .unicodeError),
+   ("UnicodeDecodeError", .unicodeDecodeError), ("UnicodeEncodeError", .unicodeEncodeError),
+   ("LookupError", .lookupError), ("IndexError", .indexError), ("KeyError", .keyError), ("NameError", .nameError),
+   ("UnboundLocalError", .unboundLocalError), ("ArithmeticError", .arithmeticError),
+   ("ZeroDivisionError", .zeroDivisionError), ("AssertionError", .assertionError)]
+
+def c07ExcOfName (n : String) : PyIO.ExcClass :=
+  match c07ExcNames.find? (fun p => p.1 == n) with
+  | some p => p.2
+  | none => .serialException
+
+def c07ExcName (c : PyIO.ExcClass) : String :=
+  match c07ExcNames.find? (fun p => p.2 == c) with
+  | some p => p.1
+  | none => "?"
+
+def c07ParseReadsG : List String → Option (List Rd)
+  | [] => some []
+  | t :: ts =>
+    match c07ParseReadsG ts with
+    | none => none
+    | some rest =>
+      if t.startsWith "x" then some (.raise (c07ExcOfName (t.drop 1).toString) :: rest)
+      else if t.startsWith "e" then
+        match (t.drop 1).toString.toNat? with
+        | some k => some (List.replicate k .empty ++ rest)
+        | none => none
+      else if t.startsWith "l" then
+        match c07Dec (t.drop 1).toString with
+        | some b => some (.line b :: rest)
+        | none => none
+      else none
+
+def c07ShowValG : PyIO.Val → String
+  | .str s => "S" ++ c07Enc s
+  | .bytes b => "B" ++ c07Enc b
+  | .none => "None"
+  | .bool true => "True"
+  | .bool false => "False"
+  | .int n => s!"I{n}"
+  | _ => "OTHER"
+
+def c07ParseBoolG (t : String) : PyIO.Val :=
+  if t == "True" then .bool true else if t == "False" then .bool false else .none
+
+def c07RunCallsG (fuel : Nat) : List (List String) → Port → List String
+  | [], _ => []
+  | seg :: segs, p =>
+    match seg with
+    | k :: portTok :: cmdTok :: vTok :: readToks =>
+      let cmd : Option PyIO.Val := if cmdTok = "None" then some .none else (c07Dec cmdTok).map PyIO.Val.str
+      match cmd, c07ParseReadsG readToks with
+      | some cmd, some reply =>
+        let present : Bool := portTok == "1"
+        let written := present && (match cmd with | .str c => isAscii c | _ => false)
+        let p0 : Port := if written then { p with reads := p.reads ++ reply } else p
+        let portV : PyIO.Val := if present then .port else .none
+        let out := if k == "q" then Gen.ebb_serial_query fuel portV cmd (c07ParseBoolG vTok) p0
+                   else Gen.ebb_serial_command fuel portV cmd (c07ParseBoolG vTok) p0
+        match out with
+        | .fuelOut => ["FUELOUT"]
+        | .val v p1 =>
+          let nw := p1.log.drop p.log.length
+          s!"{c07ShowValG v} {nw.length} {c07ShowNames nw} {p1.nread - p.nread} {p1.reads.length}" :: c07RunCallsG fuel segs p1
+        | .exc c p1 =>
+          let nw := p1.log.drop p.log.length
+          s!"!{c07ExcName c} {nw.length} {c07ShowNames nw} {p1.nread - p.nread} {p1.reads.length}" :: c07RunCallsG fuel segs p1
+      | _, _ => ["BAD"]
+    | _ => ["BAD"]
+
 def c07Handle (toks : List String) : String :=
   match toks with
   | ["params"] =>
@@ -122,6 +208,16 @@ def c07Handle (toks : List String) : String :=
         | some q => " ; ".intercalate (c07RunCalls P calls ⟨q, c07ParseWrites w, [], 0⟩)
         | none => "BAD"
       | [] => "BAD"
+    | _, _ => "BAD"
+  | "gseq" :: fuel :: wexc :: w :: rest =>
+    match fuel.toNat?, c07Segments rest with
+    | some f, pre :: calls =>
+      match c07ParseReadsG pre with
+      | some q =>
+        let ws : List Wr := if w = "-" then [] else
+          w.toList.map (fun c => if c = 'x' then Plotink.PyIO.Wr.raise (c07ExcOfName wexc) else Plotink.PyIO.Wr.ok)
+        " ; ".intercalate (c07RunCallsG f calls ⟨q, ws, [], 0⟩)
+      | none => "BAD"
     | _, _ => "BAD"
   | _ => "BAD"
 
